@@ -9,6 +9,7 @@
 -/
 import Rend.Props.C08
 import Rend.Server.Loop
+import Rend.Proofs.OnlyResp
 
 namespace Rend.Props.C12
 open Rend
@@ -268,6 +269,37 @@ theorem C12_locked_step_get (bits : Nat) (wrapped : Cmd → OProg (HRes Unit)) (
   have hshape := C12_get_shape (lockedFact "Get") ⟨hf.1, hf.2.1, hf.2.2.1, hf.2.2.2.1, hf.2.2.2.2.1, C08.locked_facts_ok.2.1.2.2.2.2.2⟩
     bits (fun sub => wrapped (.get sub)) g g.keys res es h
   exact ⟨C12_get_paired _ bits _ (fun g' => hw _) g _ _ _ hshape hc, C12_get_result _ bits _ g _ _ _ hshape⟩
+
+/-- The three orchestrators, over any handlers that are silent towards the client (proved for the
+    pass-through and the chunked handler models), emit no lock events: the hypothesis `NoLocks` of
+    the theorems above holds for everything the wrapper is ever put around. -/
+theorem C12_orchestrators_no_locks (o : OrcaKind) (h1 h2 : Handler OEv) (hs1 : SilentHandler h1) (hs2 : SilentHandler h2)
+    (c : Cmd) : NoLocks (o.step h1 h2 c) := by
+  constructor
+  intro a es hr
+  have h := (OrcaKind.step_onlyResp o h1 h2 hs1 hs2 c).out a es hr
+  unfold lockEvs
+  rw [List.filter_eq_nil_iff]
+  intro e he
+  have := h e he
+  cases e <;> simp_all [OEv.isResp]
+
+/-- The wrapper around a real orchestrator, closed form: single-key commands. -/
+theorem C12_wrapped_single (bits : Nat) (o : OrcaKind) (h1 h2 : Handler OEv) (hs1 : SilentHandler h1) (hs2 : SilentHandler h2)
+    (c : Cmd) (key : Bytes)
+    (hk : (∃ k s, c = .store k s ∧ key = s.key) ∨ (∃ k, c = .delete k ∧ key = k.key) ∨ (∃ k, c = .touch k ∧ key = k.key) ∨
+      (∃ k, c = .gat k ∧ key = k.key))
+    (res : HRes Unit) (es : List OEv) (h : Runs (Locked.step bits (o.step h1 h2) c) res es) (hc : isCrash res = false) :
+    lockEvs es = [.acquire (stripeOf bits key) false, .release (stripeOf bits key) false] ∧
+      ∃ es', Runs (o.step h1 h2 c) res es' :=
+  C12_locked_step_single bits _ (fun c' => C12_orchestrators_no_locks o h1 h2 hs1 hs2 c') c key hk res es h hc
+
+/-- …and multi-key gets. -/
+theorem C12_wrapped_get (bits : Nat) (o : OrcaKind) (h1 h2 : Handler OEv) (hs1 : SilentHandler h1) (hs2 : SilentHandler h2)
+    (g : GetCmd) (res : HRes Unit) (es : List OEv) (h : Runs (Locked.step bits (o.step h1 h2) (.get g)) res es)
+    (hc : isCrash res = false) :
+    Paired (lockEvs es) ∧ (res = .ok () ∨ ∃ sg e3, Runs (o.step h1 h2 (.get sg)) res e3 ∧ res ≠ .ok ()) :=
+  C12_locked_step_get bits _ (fun c' => C12_orchestrators_no_locks o h1 h2 hs1 hs2 c') g res es h hc
 
 /-- Non-vacuity: `Paired` rejects a sequence that holds two locks, and one that leaves a lock held. -/
 example : ¬ Paired [.acquire 1 false, .acquire 2 false, .release 2 false, .release 1 false] := by
